@@ -247,11 +247,11 @@ class Builder:
             g.edge(g.exitT, g.exit)
             g.edge(g.exitF, g.exit)
             ctx = Ctx(ret=g.exit, retT=g.exitT, retF=g.exitF, raise_to=g.raise_exit)
-            fr = self._seq(copy_propagate(fn), [(g.entry, None)], frame, ctx)
+            fr = self._seq(prepass(self.P, fn), [(g.entry, None)], frame, ctx)
             g.connect(fr, g.exitF)
         else:
             ctx = Ctx(ret=g.exit, raise_to=g.raise_exit)
-            fr = self._seq(copy_propagate(fn), [(g.entry, None)], frame, ctx)
+            fr = self._seq(prepass(self.P, fn), [(g.entry, None)], frame, ctx)
             g.connect(fr, g.exit)
         g.top = frame
         return g
@@ -666,7 +666,7 @@ class Builder:
             cctx = Ctx(ret=leave, retT=boolean[0], retF=boolean[1], raise_to=prop)
         else:
             cctx = Ctx(ret=leave, raise_to=prop)
-        out = self._seq(copy_propagate(fn), [(enter, None)], callee, cctx)
+        out = self._seq(prepass(self.P, fn), [(enter, None)], callee, cctx)
         if boolean:
             return out          # caller connects fall-off to the false join
         g.connect(out, leave)
@@ -790,9 +790,19 @@ def copy_propagate(fn):
             elif active and not (isinstance(st, (ast.Assign, ast.AugAssign)) and False):
                 if isinstance(st, ast.Assign):
                     v = rewrite_expr(st.value, active)
-                    # sub-expressions of targets (keys) are left alone
-                    if v is not st.value:
-                        new = ast.copy_location(ast.Assign(targets=st.targets, value=v, type_comment=None), st)
+                    # the container a subscript / attribute target writes into is read, not written: `data[p] = []` after `self.data = data`
+                    # stores into self.data (keys are left alone)
+                    tg = []
+                    for t in st.targets:
+                        if isinstance(t, (ast.Subscript, ast.Attribute)) and any(isinstance(x, ast.Name) and x.id in active for x in ast.walk(t.value)):
+                            base = rewrite_expr(t.value, active)
+                            t2 = copy.copy(t)
+                            t2.value = base
+                            tg.append(t2)
+                        else:
+                            tg.append(t)
+                    if v is not st.value or any(a is not b for a, b in zip(tg, st.targets)):
+                        new = ast.copy_location(ast.Assign(targets=tg, value=v, type_comment=None), st)
                 elif isinstance(st, ast.AugAssign):
                     v = rewrite_expr(st.value, active)
                     if v is not st.value:
@@ -819,6 +829,12 @@ def copy_propagate(fn):
             if isinstance(st, ast.Assign) and len(st.targets) == 1 and target_ok(st.targets[0]) and isinstance(st.value, ast.Name) \
                     and st.value.id not in params and st.value.id != 'self':
                 active[st.value.id] = st.targets[0]
+            # `self.f = x = <value>`: the chained form of the same thing
+            if isinstance(st, ast.Assign) and len(st.targets) == 2:
+                nm = [t for t in st.targets if isinstance(t, ast.Name)]
+                fl = [t for t in st.targets if target_ok(t)]
+                if len(nm) == 1 and len(fl) == 1 and nm[0].id not in params and not any(isinstance(x, ast.Name) and x.id == nm[0].id for x in ast.walk(st.value)):
+                    active[nm[0].id] = fl[0]
         return out
     res = alias_inline(fn, block(fn.body, {}))
     fn._sa_copyprop = (fn.body, res)
@@ -899,6 +915,278 @@ def alias_inline(fn, stmts):
         else:
             out.append(st)
     return out
+
+
+
+def _element_predicates(P):
+    """{method name: (class, FunctionDef, formula)} for the methods that exactly one class of the package defines, that no module-level
+    function shares a name with, and whose body is a call-free boolean formula over `self` and the parameters: `return E`,
+    `if C: return True` + `return False` (and the mirrored / if-else forms).  A call `x.m(a, b)` on any receiver other than self can only
+    reach that method, and evaluating it is evaluating the formula with self := x."""
+    cached = P.__dict__.get('_sa_elem_preds')
+    if cached is not None:
+        return cached
+    byname = {}
+    for cs in P.by_name.values():
+        for c in cs:
+            for nm, f in c.methods.items():
+                byname.setdefault(nm, []).append((c, f))
+    modfuncs = set()
+    for m in P.mods.values():
+        for st in m.tree.body:
+            if isinstance(st, ast.FunctionDef):
+                modfuncs.add(st.name)
+    out = {}
+    for nm, lst in byname.items():
+        if len(lst) != 1 or nm in modfuncs or nm.startswith('__'):
+            continue
+        c, f = lst[0]
+        if f.decorator_list or f.args.vararg or f.args.kwarg or f.args.kwonlyargs or f.args.defaults or not f.args.args or f.args.args[0].arg != 'self':
+            continue
+        body = [s_ for s_ in f.body if not (isinstance(s_, ast.Expr) and isinstance(s_.value, ast.Constant))]
+        formula = None
+
+        def const(r, v):
+            return isinstance(r, ast.Return) and isinstance(r.value, ast.Constant) and r.value.value is v
+        if len(body) == 1 and isinstance(body[0], ast.Return) and body[0].value is not None:
+            formula = body[0].value
+        elif len(body) == 2 and isinstance(body[0], ast.If) and not body[0].orelse and len(body[0].body) == 1:
+            if const(body[0].body[0], True) and const(body[1], False):
+                formula = body[0].test
+            elif const(body[0].body[0], False) and const(body[1], True):
+                formula = ast.UnaryOp(op=ast.Not(), operand=body[0].test)
+        elif len(body) == 1 and isinstance(body[0], ast.If) and len(body[0].body) == 1 and len(body[0].orelse) == 1:
+            if const(body[0].body[0], True) and const(body[0].orelse[0], False):
+                formula = body[0].test
+            elif const(body[0].body[0], False) and const(body[0].orelse[0], True):
+                formula = ast.UnaryOp(op=ast.Not(), operand=body[0].test)
+        if formula is None or not isinstance(formula, (ast.Compare, ast.BoolOp, ast.UnaryOp)):
+            continue       # a comparison / conjunction: a predicate about the object, not an accessor
+        params = {a.arg for a in f.args.args}
+        if any(isinstance(x, (ast.Call, ast.Lambda, ast.NamedExpr, ast.Await, ast.Yield)) for x in ast.walk(formula)):
+            continue
+        if any(isinstance(x, ast.Name) and x.id not in params for x in ast.walk(formula)):
+            continue
+        out[nm] = (c, f, formula)
+    P.__dict__['_sa_elem_preds'] = out
+    return out
+
+
+def inline_element_predicates(P, fn, stmts):
+    """`r.is_same_order(target, tag)` -> `r.target == target and r.tag == tag` (see _element_predicates): a test a refactoring moved into
+    the class of the objects it is about reads, to every rule, like the test written in place."""
+    import copy
+    preds = _element_predicates(P)
+    if not preds:
+        return stmts
+    names = set(preds)
+    if not any(isinstance(x, ast.Call) and isinstance(x.func, ast.Attribute) and x.func.attr in names for st in stmts for x in ast.walk(st)):
+        return stmts
+
+    def simple(e):
+        return not any(isinstance(x, (ast.Call, ast.Lambda, ast.NamedExpr)) for x in ast.walk(e))
+
+    class Sub(ast.NodeTransformer):
+        changed = False
+
+        def visit_FunctionDef(self, n):
+            return n
+
+        def visit_Lambda(self, n):
+            return n
+
+        def visit_Call(self, n):
+            self.generic_visit(n)
+            f = n.func
+            if not (isinstance(f, ast.Attribute) and f.attr in preds and isinstance(f.value, ast.Name) and f.value.id not in ('self', 'cls')):
+                return n
+            c, fd, formula = preds[f.attr]
+            ps = [a.arg for a in fd.args.args[1:]]
+            if any(isinstance(a, ast.Starred) for a in n.args) or len(n.args) > len(ps):
+                return n
+            bind = dict(zip(ps, n.args))
+            for k in n.keywords:
+                if k.arg is None or k.arg not in ps or k.arg in bind:
+                    return n
+                bind[k.arg] = k.value
+            if set(bind) != set(ps) or not all(simple(v) for v in bind.values()):
+                return n
+            bind['self'] = f.value
+
+            class Put(ast.NodeTransformer):
+                def visit_Name(self_, x):
+                    if x.id in bind:
+                        return ast.copy_location(copy.deepcopy(bind[x.id]), n)
+                    return x
+            new = Put().visit(copy.deepcopy(formula))
+            for x in ast.walk(new):
+                ast.copy_location(x, n)
+            Sub.changed = True
+            return new
+    out = []
+    for st in stmts:
+        Sub.changed = False
+        new = Sub().visit(copy.deepcopy(st))
+        if Sub.changed:
+            ast.fix_missing_locations(new)
+            out.append(new)
+        else:
+            out.append(st)
+    return out
+
+
+def _unique_methods(P):
+    """{name: (class, FunctionDef)} for method names that exactly one class of the package defines (and no module-level function)"""
+    cached = P.__dict__.get('_sa_unique_methods')
+    if cached is not None:
+        return cached
+    byname = {}
+    owner = {}
+    for cs in P.by_name.values():
+        for c in cs:
+            for nm, f in c.methods.items():
+                byname.setdefault(nm, []).append((c, f))
+    modfuncs = {st.name for m in P.mods.values() for st in m.tree.body if isinstance(st, ast.FunctionDef)}
+    out = {nm: lst[0] for nm, lst in byname.items() if len(lst) == 1 and nm not in modfuncs and not nm.startswith('__')}
+    P.__dict__['_sa_unique_methods'] = out
+    return out
+
+
+def _owner_class(P, fn):
+    for cs in P.by_name.values():
+        for c in cs:
+            for f in c.methods.values():
+                if f is fn:
+                    return c
+            for pr in getattr(c, 'props', {}).values():
+                if any(x is fn for x in (pr.values() if isinstance(pr, dict) else [pr])):
+                    return c
+    return None
+
+
+def inline_foreign_tail_calls(P, fn, stmts):
+    """`return x.m(a)` where x is a local / parameter other than self and m is a method only one class of the
+    package (in the same module) defines: replaced by the body of m with self := x and the parameters := the (call-free) arguments, the
+    callee's locals renamed.  Dispatch can only reach that method, and in tail position the callee's returns are the caller's, so this
+    is an identity on behaviour; it lets rules follow logic that a refactoring moved into the class of a collaborating object
+    (`GroupOutput.give_part` -> `last_entered_group._release_part(part)`) exactly as when it was written in place.  One level only."""
+    import copy
+    table = _unique_methods(P)
+    cand = [x for st in stmts for x in ast.walk(st) if isinstance(x, ast.Call) and isinstance(x.func, ast.Attribute) and x.func.attr in table
+            and isinstance(x.func.value, ast.Name) and x.func.value.id not in ('self', 'cls')]
+    if not cand:
+        return stmts
+    owner = _owner_class(P, fn)
+    if owner is None:
+        return stmts
+    caller_names = {x.id for x in ast.walk(fn) if isinstance(x, ast.Name)} | {a.arg for a in fn.args.args}
+
+    def simple(e):
+        return isinstance(e, (ast.Name, ast.Constant)) or (isinstance(e, ast.Attribute) and simple(e.value))
+
+    def expand(call, mode):
+        c, fd = table[call.func.attr]
+        if c.mod is not owner.mod or fd is fn or fd.decorator_list or fd.args.vararg or fd.args.kwarg or fd.args.kwonlyargs:
+            return None
+        if not fd.args.args or fd.args.args[0].arg != 'self':
+            return None
+        ps = [a.arg for a in fd.args.args[1:]]
+        if any(isinstance(a, ast.Starred) for a in call.args) or len(call.args) > len(ps):
+            return None
+        bind = dict(zip(ps, call.args))
+        for k in call.keywords:
+            if k.arg is None or k.arg not in ps or k.arg in bind:
+                return None
+            bind[k.arg] = k.value
+        nd = len(fd.args.defaults)
+        for p_, d_ in zip(ps[len(ps) - nd:], fd.args.defaults):
+            if p_ not in bind and isinstance(d_, ast.Constant):
+                bind[p_] = d_
+        if set(bind) != set(ps) or not all(simple(v) for v in bind.values()):
+            return None
+        body = [s_ for s_ in fd.body if not (isinstance(s_, ast.Expr) and isinstance(s_.value, ast.Constant))]
+        stored = {x.id for s_ in body for x in ast.walk(s_) if isinstance(x, ast.Name) and isinstance(x.ctx, (ast.Store, ast.Del))}
+        if stored & (set(ps) | {'self'}):
+            return None
+        for s_ in body:
+            for x in ast.walk(s_):
+                if isinstance(x, (ast.FunctionDef, ast.AsyncFunctionDef, ast.Lambda, ast.ClassDef, ast.Yield, ast.YieldFrom, ast.Global, ast.Nonlocal, ast.Await)):
+                    return None
+                if isinstance(x, ast.Name) and x.id == 'super':
+                    return None
+                if mode == 'expr' and isinstance(x, ast.Return):
+                    return None
+                # one level: the body must not itself contain a call that this pass would expand
+        bind = dict(bind, self=call.func.value)
+        ren = {nm: f'{nm}__{fd.name.strip("_")}' for nm in stored}
+        if set(ren.values()) & caller_names:
+            return None
+
+        class Put(ast.NodeTransformer):
+            def visit_Name(self_, x):
+                if x.id in bind and isinstance(x.ctx, ast.Load):
+                    return ast.copy_location(copy.deepcopy(bind[x.id]), x)
+                if x.id in ren:
+                    return ast.copy_location(ast.Name(id=ren[x.id], ctx=x.ctx), x)
+                return x
+        out = [ast.fix_missing_locations(Put().visit(copy.deepcopy(s_))) for s_ in body]
+        if mode == 'return' and not isinstance(out[-1], ast.Return):
+            out.append(ast.copy_location(ast.Return(value=ast.Constant(value=None)), call))
+            ast.fix_missing_locations(out[-1])
+        return out
+
+    def block(sts):
+        res, changed = [], False
+        for st in sts:
+            rep = None
+            if isinstance(st, ast.Return) and st.value in cand:
+                rep = expand(st.value, 'return')
+            if rep is not None:
+                res += rep
+                changed = True
+                continue
+            if isinstance(st, (ast.If, ast.For, ast.While, ast.With, ast.Try)):
+                new = None
+                for fld in ('body', 'orelse', 'finalbody'):
+                    sub = getattr(st, fld, None)
+                    if sub:
+                        b2, ch = block(sub)
+                        if ch:
+                            new = new or copy.copy(st)
+                            setattr(new, fld, b2)
+                if isinstance(st, ast.Try):
+                    hs, chh = [], False
+                    for h in st.handlers:
+                        b2, ch = block(h.body)
+                        if ch:
+                            h2 = copy.copy(h)
+                            h2.body = b2
+                            hs.append(h2)
+                            chh = True
+                        else:
+                            hs.append(h)
+                    if chh:
+                        new = new or copy.copy(st)
+                        new.handlers = hs
+                if new is not None:
+                    res.append(new)
+                    changed = True
+                    continue
+            res.append(st)
+        return res, changed
+    out, ch = block(stmts)
+    return out if ch else stmts
+
+
+
+def prepass(P, fn):
+    """the behaviour-preserving normalisations applied to a function body before its graph is built (cached on the node)"""
+    cached = fn.__dict__.get('_sa_prepass')
+    if cached is not None and cached[0] is fn.body and cached[1] is P:
+        return cached[2]
+    res = inline_foreign_tail_calls(P, fn, inline_element_predicates(P, fn, copy_propagate(fn)))
+    fn.__dict__['_sa_prepass'] = (fn.body, P, res)
+    return res
 
 
 
